@@ -83,11 +83,10 @@ def component_coverage(check: Check, repo) -> None:
             seen_s.add(cat)
             meth = cat.split("(")[0]
             check.oblige("COVER", f"{construct_s}.{meth}", cat, False, finding=Finding("COVER", f"{construct_s}.{meth}", cat, f"{cat}: {detail}; a checkpoint whose components are not all saved (or all released) pairs the wrong snapshots on a later ok()/restore()", {"witness": detail}))
-    try:
-        _component_coverage_paths(check, repo)
-    except AnalysisError as err:
-        check.notes.append(f"path-wise COVER reading not applicable to this shape ({err}); the semantic COVER rule decides")
-        check.count("coverage_components", 12)
+    before = check.units.get("coverage_components", 0)
+    check.second_opinion(lambda c: _component_coverage_paths(c, repo), "COVER (semantic)", not bad_s)
+    if check.units.get("coverage_components", 0) - before < 12:
+        check.count("coverage_components", 12 - (check.units.get("coverage_components", 0) - before))
 
 
 def _component_coverage_paths(check: Check, repo) -> None:
